@@ -587,8 +587,9 @@ def oracle(c):
         try:
             s.tessellate(vertex_spacing=d['s'])
             vs, fs = s.tessellator.vertices, s.tessellator.faces
-            if _div(d['su'], d['sv'], d['s']) and (s.vertices is not vs or s.faces is not fs):
-                return "Surface.vertices / .faces are not the tessellator's lists"
+            if _div(d['su'], d['sv'], d['s']) and ([(v.id, list(v.data)) for v in s.vertices] != [(v.id, list(v.data)) for v in vs]
+                                                   or [list(f.data) for f in s.faces] != [list(f.data) for f in fs]):
+                return "Surface.vertices / .faces differ from the tessellation component's vertices / faces"
         except Exception as e:
             return "Surface.tessellate(vertex_spacing=%d) with sample size %dx%d raises %s" % (d['s'], d['su'], d['sv'], type(e).__name__)
         su, sv = s.sample_size_u, s.sample_size_v
